@@ -525,6 +525,10 @@ class IsInIdle(ProtocolStateBase):
 
         if HGI_DEVICE_ID in cmd.tx_header:  # HACK: what do I do about this
             cmd._hdr_ = cmd._hdr_.replace(HGI_DEVICE_ID, self._context._protocol.hgi_id)
+        if cmd.rx_header and HGI_DEVICE_ID in cmd.rx_header:  # e.g. 1FC9| I|18:000730
+            cmd._rx_header = cmd.rx_header.replace(
+                HGI_DEVICE_ID, self._context._protocol.hgi_id
+            )
         self._context.set_state(WantEcho)
 
 
